@@ -6,6 +6,11 @@ and cycles, transient traits, a written ReadOnly, decorated observers, items
 handlers, observed cached properties, per-trait `copy` metadata), copied with
 pickle protocols 0-5, copy.deepcopy and clone_traits(copy=None/'shallow'/'deep');
 the copy is judged on class, values, transients, sharing and a liveness battery.
+Further families of sub-check A: _c14_min.py (one liveness feature per class, awkward
+trait names), _c14_more.py (lazy defaults, nested graphs, write-restricted kinds),
+_c14_bounded.py (length-bounded lists -- minlen / maxlen in every placement -- holding
+non-default contents) and _c14_ident.py (identity-hashed mutable objects as set members
+and dict keys: object-graph comparison, sharing by step, graph consistency).
 
 Sub-check B (vf/monitors/_c14_defs.py): every kind of trait definition object
 (CTrait) of the catalogue through pickle 0/2/5, copy.deepcopy, copy.copy; the
@@ -20,6 +25,8 @@ from vf.monitors import _c14_defs as defs
 from vf.monitors import _c14_objs as objs
 from vf.monitors import _c14_min as minfam
 from vf.monitors import _c14_more as more
+from vf.monitors import _c14_bounded as bounded
+from vf.monitors import _c14_ident as ident
 
 META = {
     "level": "exploration",
@@ -49,7 +56,29 @@ META = {
              "write-restricted trait carries a value never assigned by the user (ReadOnly with a declared "
              "default / a default method / assigned once / unassigned, Constant, UUID with and without "
              "can_init), read and unread before the copy, every copy mode; value equality and the "
-             "restriction itself on the copy.  B: cases = (definition kind, round-trip mode) "
+             "restriction itself on the copy.  Bounded family: a class declaring a length bound in every "
+             "placement (List with minlen / minlen+maxlen / minlen == maxlen / maxlen only, a bounded list of "
+             "instances with a dynamic default, bounded inner lists of a List, of Dict values with and without "
+             "copy='deep', of a Tuple item, of the items of a List(Instance), an outer bound over unbounded inner "
+             "lists, copy='shallow' / 'ref' metadata, a transient bounded list, nested objects), states with "
+             "random legal non-default contents (lengths at the minimum / at the maximum / between) after "
+             "random mutator histories, every copy mode incl. clone_traits(traits='all'); values trait by trait "
+             "(a clone silently back at the trait's default is its own outcome), sharing, then on the bounded "
+             "lists of the copy: invalid item, underflow and overflow rejected without change, valid mutation "
+             "within the bounds accepted with exactly-once notification, original unchanged; the bounded "
+             "container values themselves through copy.deepcopy / copy.copy / pickle and re-adoption.  Ident "
+             "family: scenes whose Set / Dict traits hold identity-hashed MUTABLE objects (HasTraits instances, "
+             "plain objects, tuples / frozensets wrapping them) as set members and dict keys - Set(Instance), "
+             "Dict(Instance, Float|Instance) with copy='deep', a Dict without copy metadata (judged where the "
+             "mode is deep), sets as Dict values / List items / nested in members, Set(Any) / Dict(Any, Any), "
+             "Any(copy='deep') holding plain and standalone TraitSet / TraitDict / TraitList values, cycles "
+             "through members, objects reachable along several paths - compared as name-labelled object "
+             "graphs: value equality, no object of the original reachable in the copy along deep-policy "
+             "paths (keyed by holding container type and step: set-member / dict-key / dict-value / list-item "
+             "/ tuple-item), graph consistency (one original object = one copy object), liveness of the "
+             "rebuilt sets / dicts incl. an observer looking through the set members, every member / key of "
+             "the copy mutated with the original unchanged; the set / dict values themselves through "
+             "copy.deepcopy / pickle.  B: cases = (definition kind, round-trip mode) "
              "with kinds = c01's atomic catalogue + properties (plain/validated/cached/observed, every "
              "getter/setter/validator arity), delegates, events, constants, policies, compounds, mapped, "
              "containers, instances by class/name, adapters, misc; modes = pickle 0/2/5, deepcopy, copy; "
@@ -72,6 +101,16 @@ META = {
                   "lazy_states": 30, "lazy_copies": 400, "lazy_unread_compared": 2500,
                   "graph_states": 50, "graph_states_3plus_nodes": 35, "graph_copies": 600,
                   "graph_deep_independence_checked_3plus": 280, "graph_nodes_compared": 2300,
+                  "bounded_states": 32, "bounded_states_nested": 20, "bounded_copies": 350,
+                  "bounded_copies_ok": 350, "bounded_nondefault_values_compared": 5500,
+                  "bounded_sites_probed": 6000, "bounded_underflows_rejected": 5500,
+                  "bounded_overflows_rejected": 2600, "bounded_notify_probes": 2100,
+                  "bounded_value_copies_ok": 160,
+                  "ident_states": 48, "ident_copies": 520, "ident_copies_ok": 520,
+                  "ident_copies_with_instance_members": 450, "ident_copies_with_instance_keys": 500,
+                  "ident_sharing_checked": 520, "ident_alias_checked": 520,
+                  "ident_objects_reached_by_two_paths": 2500, "ident_members_mutated": 2700,
+                  "ident_notify_probes": 3400, "ident_rejections": 5600, "ident_value_copies_ok": 190,
                   "def_kinds": 120, "def_roundtrips": 600, "def_roundtrips_sanitized": 300,
                   "def_validate_comparisons": 120000, "def_install_steps": 80000},
         "thorough": {"evaluations": 10000000, "states": 12000, "copies": 80000, "batteries_completed": 80000,
@@ -87,6 +126,16 @@ META = {
                      "lazy_states": 800, "lazy_copies": 11000, "lazy_unread_compared": 65000,
                      "graph_states": 1300, "graph_states_3plus_nodes": 900, "graph_copies": 16000,
                      "graph_deep_independence_checked_3plus": 7000, "graph_nodes_compared": 60000,
+                     "bounded_states": 1200, "bounded_states_nested": 750, "bounded_copies": 13000,
+                     "bounded_copies_ok": 13000, "bounded_nondefault_values_compared": 200000,
+                     "bounded_sites_probed": 225000, "bounded_underflows_rejected": 200000,
+                     "bounded_overflows_rejected": 95000, "bounded_notify_probes": 78000,
+                     "bounded_value_copies_ok": 6000,
+                     "ident_states": 1600, "ident_copies": 17500, "ident_copies_ok": 17500,
+                     "ident_copies_with_instance_members": 15000, "ident_copies_with_instance_keys": 16500,
+                     "ident_sharing_checked": 17500, "ident_alias_checked": 17500,
+                     "ident_objects_reached_by_two_paths": 80000, "ident_members_mutated": 90000,
+                     "ident_notify_probes": 110000, "ident_rejections": 180000, "ident_value_copies_ok": 6300,
                      "def_kinds": 120, "def_roundtrips": 600, "def_roundtrips_sanitized": 300,
                      "def_validate_comparisons": 120000, "def_install_steps": 80000},
     },
@@ -97,7 +146,13 @@ META = {
         "docstring says ('copy reference', shallow copy) for traits without explicit copy metadata",
         "transient traits are demanded back at a fresh instance's defaults for all three mechanisms "
         "(clone_traits drops them through copyable_trait_names)",
-        "aliasing (two traits naming one object) is not demanded to survive, only values",
+        "aliasing (two traits naming one object) is not demanded to survive, only values - except in the "
+        "ident family, where one object reachable along two paths that are BOTH copied deeply (shared memo) "
+        "must stay one object: otherwise the copy's sets / dict keys do not denote the copy's own objects",
+        "ident family: traits without copy metadata are not judged under copy.deepcopy (by-reference class, "
+        "known finding of the obj family); container values pickled directly have the back references to "
+        "their owner removed first (a pickle starting inside a cycle restores the owner before the container "
+        "is filled)",
         "round-tripped definitions are compared behaviourally with the original (differential), "
         "objects without value equality by type and attributes, UUID defaults by type",
     ],
@@ -111,5 +166,7 @@ def run(ctx):
         return
     minfam.run_min(ctx)
     more.run_more(ctx)
+    bounded.run_bounded(ctx)
+    ident.run_ident(ctx)
     objs.run_objects(ctx)
     defs.run_defs(ctx, shard_offset=5)
